@@ -58,17 +58,23 @@ def tie_spec(seed: int) -> Dict[str, Any]:
     # (b) stations at exactly equal grid distance from a low-charge vehicle, in different search cells
     if spec["network"]["type"] == "euclidean":
         for j, v in enumerate(spec["vehicles"][: rnd.randint(1, 3)]):
-            cell = h3.geo_to_h3(v["lat"], v["lon"], 15)
+            # the vehicle stands at the centre of its search cell; the stations lie ~1.5 km away in the neighbouring
+            # search cells, so the first ring that finds any of them finds all of them, at equal distance
+            c7 = h3.h3_to_parent(h3.geo_to_h3(v["lat"], v["lon"], 15), 7)
+            if j > 0:
+                c7 = sorted(h3.hex_ring(c7, 3))[(j * 5) % 18]  # other tie vehicles far enough to have their own stations
+            cell = h3.geo_to_h3(*h3.h3_to_geo(c7), 15)
             la, lo = h3.h3_to_geo(cell)
             v["lat"], v["lon"] = la, lo
             v["soc"] = rnd.choice([0.05, 0.08])
             v["mech"] = "leaf_50"
             v.pop("schedule", None)
             v.pop("home_base", None)
-            d = rnd.choice([2600, 3200, 4100])
+            d = rnd.choice([1600, 1750, 1900])
             ring = sorted(h3.hex_ring(cell, d))
-            for q in range(rnd.randint(2, 4)):
-                c = ring[(q * len(ring)) // 4 + rnd.randint(0, 50)]
+            nq = rnd.randint(3, 5)
+            for q in range(nq):
+                c = ring[((q * len(ring)) // nq + rnd.randint(0, 50)) % len(ring)]
                 sla, slo = h3.h3_to_geo(c)
                 spec["stations"].append({"id": f"st{j}_{q}", "lat": sla, "lon": slo, "plugs": [{"charger": "DCFC", "count": 2, "on_shift": True}, {"charger": "LEVEL_2", "count": 2, "on_shift": True}]})
         # closer stations would win without a tie: keep only the ring stations and the base stations public
@@ -208,7 +214,7 @@ def main(tier, seed):
             if "steps" in r and "scenario" in r:
                 by_scen.setdefault(r["scenario"], []).append(r)
         compared = 0
-        ties = {"tie_plug_rank": 0, "tie_multi_fleet_double_proposal": 0, "nearest_entity_calls": 0}
+        ties = {"tie_plug_rank": 0, "tie_multi_fleet_double_proposal": 0, "nearest_entity_calls": 0, "tie_nearest_entity": 0, "tie_nearest_entity_across_search_cells": 0}
         for name, rs in sorted(by_scen.items()):
             ref = rs[0]
             hc = ref.get("hook_calls", {})
